@@ -95,6 +95,7 @@ def run(ctx):
     rep.floor('R1', 'bodies reachable from the parser entry points', len(reach), 4)
     index_sites = []
     n_sites = 0
+    n_debug = 0
     for k in reach:
         b = f.bodies[k]
         if b.derived or _generated(b, f):
@@ -102,11 +103,16 @@ def run(ctx):
         rep.saw(b)
         cfg = CFG(b)
         tr = Tracer(b)
+        from .C20 import debug_only_blocks
+        dbg = debug_only_blocks(b, cfg)
         for bi in sorted(cfg.reach):
             bb = b.blocks[bi]
             if bb['cleanup']:
                 continue
             t = bb['term']
+            if bi in dbg and (t['t'] == 'assert' or (t['t'] == 'call' and any(p in (callee_name(t) or '') for p in PANIC_CALLS))):
+                n_debug += 1        # a debug_assert! self-check (not decided; absent when debug assertions are off)
+                continue
             if t['t'] == 'assert':
                 n_sites += 1
                 kind = t['kind'].split(' ')[0].split('{')[0]
@@ -126,6 +132,8 @@ def run(ctx):
                     continue
                 rep.fail('R1', '%s/%s' % (b.fn_name, n.rsplit('::', 1)[-1]), where(b, bi),
                          '%s can panic on some input string: the parser must report an error instead' % n)
+    if n_debug:
+        rep.assume('%d panic-capable site(s) inside debug_assert!-family self-checks are not decided' % n_debug)
     rep.floor('R1', 'panic-capable sites enumerated in the parser', n_sites, 3)
     rep.floor('R2', 'matrix index writes in the parser', len(index_sites), 3)
     for (b, cfg, tr, bi, t) in index_sites:
